@@ -32,7 +32,7 @@ def side(s):
 def run(ctx):
     ctx.clause = ("both operands of a comparison are read under the same configuration: every context option, "
                   "suppression, loader call and post-load adjustment applied to operand 1 is applied to operand 2")
-    ctx.rules = ["R-TWINLOAD", "R-QNREFRESH"]
+    ctx.rules = ["R-TWINLOAD", "R-QNREFRESH", "R-ATTRWIDTH"]
     n_funcs = n_events = 0
     for unit, fname in SITES:
         P = ctx.program([unit])
@@ -91,3 +91,6 @@ def run(ctx):
                "canonicalisation over cyclic type graphs), is runtime behaviour and is not decided")
     from rules import qnrefresh_rule
     qnrefresh_rule.check(ctx, ctx.program(qnrefresh_rule.UNITS))
+    # comparing a binary with the ABIXML abidw wrote for it: numbers come back with the width they were written with
+    from rules import attrwidth_rule
+    attrwidth_rule.check(ctx, ctx.program(["src/abg-reader.cc"]))
